@@ -45,7 +45,8 @@ package sliceio
 //@   ensures  full-unless-error: implies(err == nil, n == f.len)
 //@   ensures  error-is-the-readers: implies(err != nil, r.nreads > old(r.nreads) && err == r.lastErr)
 //@   ensures  empty-reads-are-not-eof: implies(err == EOF, r.lastErr == EOF)
-//@   modifies rowsSupplied, sawRowsWithEOF, SReader.nreads, SReader.lastN, SReader.lastErr, ColMem
+//@   ghost_ensures nReadFull == old(nReadFull) + 1 && lastReadFullErr == err
+//@   modifies rowsSupplied, sawRowsWithEOF, SReader.nreads, SReader.lastN, SReader.lastErr, ColMem, nReadFull, lastReadFullErr
 //@   loop 1 invariant 0 <= n && n <= len && len == f.len && rowsSupplied == old(rowsSupplied) + n && r.nreads >= old(r.nreads)
 
 //@ func sliceio.(*frameReader).Read (ctx, out) (n, err)
